@@ -1,13 +1,13 @@
 package rules
 
 import (
-	"slipcheck/lenflow"
 	"fmt"
 	"go/ast"
 	"go/constant"
 	"go/token"
 	"go/types"
 	"regexp"
+	"slipcheck/lenflow"
 	"sort"
 	"strings"
 
@@ -392,59 +392,59 @@ func c03sym(c *core.Ctx, r *core.Reporter, m *readerModel) {
 	}
 	tokenMode := tokModes[0]
 	checkTable := func(label string, pipe string, mark byte, pos string) {
-	type verdict struct {
-		ok     bool
-		detail string
-	}
-	byteVerdict := func(b byte) verdict {
-		if pipe[b] == mark {
-			// quoted by the printer: inside |...| every byte is a constituent except the terminators; checked below
-			return verdict{true, "printer quotes"}
+		type verdict struct {
+			ok     bool
+			detail string
 		}
-		// as first byte
-		n1, ok1 := m.step(m.initial, b, 0)
-		startOK := false
-		if ok1 {
-			for _, x := range n1 {
-				if x == tokenMode {
-					startOK = true
+		byteVerdict := func(b byte) verdict {
+			if pipe[b] == mark {
+				// quoted by the printer: inside |...| every byte is a constituent except the terminators; checked below
+				return verdict{true, "printer quotes"}
+			}
+			// as first byte
+			n1, ok1 := m.step(m.initial, b, 0)
+			startOK := false
+			if ok1 {
+				for _, x := range n1 {
+					if x == tokenMode {
+						startOK = true
+					}
 				}
 			}
+			// as a later byte
+			n2, ok2 := m.step(tokenMode, b, 0)
+			contOK := ok2 && len(n2) == 1 && n2[0] == tokenMode
+			switch {
+			case !startOK && !contOK:
+				return verdict{false, "printed unquoted but rejected by the reader both as first and as later byte of a token"}
+			case !startOK:
+				return verdict{false, "printed unquoted but not accepted as the first byte of a token"}
+			case !contOK:
+				return verdict{false, "printed unquoted but terminates or is rejected inside a token"}
+			}
+			return verdict{true, "accepted"}
 		}
-		// as a later byte
-		n2, ok2 := m.step(tokenMode, b, 0)
-		contOK := ok2 && len(n2) == 1 && n2[0] == tokenMode
-		switch {
-		case !startOK && !contOK:
-			return verdict{false, "printed unquoted but rejected by the reader both as first and as later byte of a token"}
-		case !startOK:
-			return verdict{false, "printed unquoted but not accepted as the first byte of a token"}
-		case !contOK:
-			return verdict{false, "printed unquoted but terminates or is rejected inside a token"}
+		// group contiguous bytes with the same verdict text into one obligation
+		start := 0
+		cur := byteVerdict(0)
+		flush := func(end int) {
+			key := fmt.Sprintf("%sbytes 0x%02x-0x%02x", label, start, end)
+			if start == end {
+				key = fmt.Sprintf("%sbyte 0x%02x %s", label, start, quoteByte(byte(start)))
+			}
+			o := r.Decide(cur.ok, rule, key, pos, cur.detail)
+			_ = o
 		}
-		return verdict{true, "accepted"}
-	}
-	// group contiguous bytes with the same verdict text into one obligation
-	start := 0
-	cur := byteVerdict(0)
-	flush := func(end int) {
-		key := fmt.Sprintf("%sbytes 0x%02x-0x%02x", label, start, end)
-		if start == end {
-			key = fmt.Sprintf("%sbyte 0x%02x %s", label, start, quoteByte(byte(start)))
+		for b := 1; b < 256; b++ {
+			v := byteVerdict(byte(b))
+			if v != cur {
+				flush(b - 1)
+				start, cur = b, v
+			}
 		}
-		o := r.Decide(cur.ok, rule, key, pos, cur.detail)
-		_ = o
-	}
-	for b := 1; b < 256; b++ {
-		v := byteVerdict(byte(b))
-		if v != cur {
-			flush(b - 1)
-			start, cur = b, v
-		}
-	}
-	flush(255)
-	// inside |...|: the closing | and the escape must be the only special bytes the printer has to avoid; the printer does not escape, so a | in the name must be quoted... it cannot be: report if '|' is not marked
-	r.Decide(pipe['|'] == mark, rule, label+"byte '|' marked", pos, "the quoting table marks the | character itself")
+		flush(255)
+		// inside |...|: the closing | and the escape must be the only special bytes the printer has to avoid; the printer does not escape, so a | in the name must be quoted... it cannot be: report if '|' is not marked
+		r.Decide(pipe['|'] == mark, rule, label+"byte '|' marked", pos, "the quoting table marks the | character itself")
 
 	}
 	checkTable("", pipe, mark, c.Pos(fnObj.Pos()))
